@@ -178,7 +178,7 @@ fn htype(name: &str, parent: i32, members: &[(&str, i32, Option<&str>)]) -> Vec<
 /// 3 no skeleton, 4 parentIndices shorter than bones, 5 referencePose shorter than bones,
 /// 6 `bones` declared as an int array, 7 `className` declared as an int, 8 referencePose as VEC4 array,
 /// 9 parentIndices as a real array, 10 a packed integer with six continuation bytes,
-/// 11 referencePose as an int array, 12 `skeletons` as a plain int
+/// 11 referencePose as an int array, 12 `skeletons` as a plain int, 13 = 2 with `duration` as an int
 fn havok_file(bones: usize, variant: u32, rng: &mut Rng) -> Vec<u8> {
     let with_parent_type = variant == 1;
     let mut o = vec![];
@@ -229,7 +229,7 @@ fn havok_file(bones: usize, variant: u32, rng: &mut Rng) -> Vec<u8> {
             ("bindings", 0x18, Some("hkaAnimationBinding")),
         ],
     ));
-    if variant == 2 {
+    if variant == 2 || variant == 13 {
         o.extend(htype(
             "hkaAnimationBinding",
             0,
@@ -239,7 +239,7 @@ fn havok_file(bones: usize, variant: u32, rng: &mut Rng) -> Vec<u8> {
             "hkaSplineCompressedAnimation",
             0,
             &[
-                ("duration", 3, None),
+                ("duration", if variant == 13 { 2 } else { 3 }, None),
                 ("numberOfTransformTracks", 2, None),
                 ("numFrames", 2, None),
                 ("numBlocks", 2, None),
@@ -278,7 +278,7 @@ fn havok_file(bones: usize, variant: u32, rng: &mut Rng) -> Vec<u8> {
         o.extend(pint(1));
         o.extend(pint(3));
     }
-    if variant == 2 {
+    if variant == 2 || variant == 13 {
         o.extend(pint(1));
         o.extend(pint(4));
     } else {
@@ -343,7 +343,7 @@ fn havok_file(bones: usize, variant: u32, rng: &mut Rng) -> Vec<u8> {
     o.extend(pint(2));
     o.extend(hstr("a"));
     o.extend(pint(-1)); // back reference to ""
-    if variant == 2 {
+    if variant == 2 || variant == 13 {
         // object 4: binding; object 5: spline compressed animation
         o.extend(pint(4));
         o.extend(pint(cont_type + 1));
@@ -358,7 +358,11 @@ fn havok_file(bones: usize, variant: u32, rng: &mut Rng) -> Vec<u8> {
         o.extend(pint(cont_type + 2));
         o.push(0xFF);
         o.push(0x03);
-        o.extend_from_slice(&1.0f32.to_le_bytes());
+        if variant == 13 {
+            o.extend(pint(1));
+        } else {
+            o.extend_from_slice(&1.0f32.to_le_bytes());
+        }
         for v in [2, 3, 1, 256, 8] {
             o.extend(pint(v));
         }
@@ -391,6 +395,7 @@ fn sklb_seeds(rng: &mut Rng) -> Vec<Seed> {
         (0x3133_3030, 1, 10),
         (0x3133_3030, 2, 11),
         (0x3133_3030, 1, 12),
+        (0x3133_3030, 2, 13),
     ] {
         let hk = havok_file(bones, variant, rng);
         let mut b = B::new(false);
